@@ -60,6 +60,12 @@ Theorem C18_ring_mul_negacyclic : forall a b,
   ring_elem a -> ring_elem b -> re_mul a b = Some (negacyclic a b).
 Proof. exact ring_mul_negacyclic. Qed.
 Print Assumptions C18_ring_mul_negacyclic.
+(* the same with the convolution written coefficient by coefficient:
+   c_k = sum_{i+j=k} a_i b_j - sum_{i+j=k+64} a_i b_j  (mod p) *)
+Theorem C18_ring_mul_explicit : forall a b,
+  ring_elem a -> ring_elem b -> re_mul a b = Some (map (negacyclic_coeff a b) (seq 0 64)).
+Proof. exact ring_mul_explicit. Qed.
+Print Assumptions C18_ring_mul_explicit.
 Example C18_ring_elem_example : ring_elem (unit_vec 64 3) /\ ring_elem (negacyclic (unit_vec 64 3) (unit_vec 64 63)).
 Proof. exact ring_elem_example. Qed.
 
